@@ -158,6 +158,40 @@ func c08KWP(c *Ctx) {
 				}
 			}
 		}
+		// padding checked with slices.ContainsFunc(padding, func(b byte) bool { return b != 0 }) == false
+		if !okPad {
+			for _, fct := range facts {
+				pc, val, isB := guard.BoolCallFact(fct)
+				if !isB || val || !strings.HasPrefix(guard.CalleeName(&pc.Call), "slices.ContainsFunc") || len(pc.Call.Args) != 2 {
+					continue
+				}
+				var pred *ssa.Function
+				switch pv := guard.Strip(pc.Call.Args[1]).(type) {
+				case *ssa.Function:
+					pred = pv
+				case *ssa.MakeClosure:
+					pred, _ = pv.Fn.(*ssa.Function)
+				}
+				if pred == nil || len(pred.Params) != 1 {
+					continue
+				}
+				nonZero := true
+				for _, pr := range guard.Returns(pred) {
+					bo, isBO := pr.Results[0].(*ssa.BinOp)
+					if !isBO || bo.Op != token.NEQ || guard.Strip(bo.X) != ssa.Value(pred.Params[0]) {
+						nonZero = false
+						continue
+					}
+					if k, isK := guard.ConstInt(bo.Y); !isK || k != 0 {
+						nonZero = false
+					}
+				}
+				// the checked slice runs to the end of the unwrapped buffer (no High bound)
+				if sl, isSl := guard.Strip(pc.Call.Args[0]).(*ssa.Slice); isSl && sl.High == nil && nonZero {
+					okPad = true
+				}
+			}
+		}
 		r.Check(okWord && okSize && okPad, "C08.kwp.integrity", "C08.kwp.integrity/Unwrap", p.Pos(ret.Pos()),
 			fmt.Sprintf("Unwrap can return key material without all three integrity checks (IV word=%v, encoded size=%v, zero padding=%v)", okWord, okSize, okPad),
 			"dominated by word==0xA65959A6, wrappingSize(n)==len, padding loop")
